@@ -646,3 +646,44 @@ Fixpoint graph_build_m (evs : list (nat * (bool * N))) (paths : list (list N)) (
   end.
 Definition graph_of_m (n : nat) (evs : list tev) : list (N * N * N) :=
   flat_map (g_flat 0) (graph_build_m (map (fun p => (fst p, ob_n (snd p))) evs) (repeat [] n) []).
+
+(* ------------------------------------------------------------------ trace_on / trace_off: the documented switch *)
+(* One switch along the order of events (shared by all tasks; here one task): a trace_off function and
+   everything after it is not shown until a trace_on function is entered; the switch is only touched by
+   functions the filters -F/-N let through.  Nesting budget not limiting (no -D hit, no depth=, no -H). *)
+Fixpoint vis_sw (c : cfg) (inF on : bool) (n : call) : list (bool * N) * bool :=
+  match n with
+  | Call f t0 t1 ks =>
+      let tr := trig_of c f in
+      let kids := fix go (inF' on0 : bool) (l : list call) : list (bool * N) * bool :=
+                    match l with
+                    | [] => ([], on0)
+                    | k :: r => let '(o1, b1) := vis_sw c inF' on0 k in
+                                let '(o2, b2) := go inF' b1 r in (o1 ++ o2, b2)
+                    end in
+      match q_filter tr with
+      | Some false => ([], on)
+      | qf =>
+          let isF := match qf with Some true => true | _ => false end in
+          if negb isF && fmode_in c && negb inF then kids false on ks
+          else
+            let on1 := if q_trace_off tr then false else if q_trace_on tr then true else on in
+            let '(ko, on2) := kids (inF || isF) on1 ks in
+            let shown := negb (hidden_plt c f) in
+            ((if on1 && shown then [(false, f)] else []) ++ ko ++ (if on2 && shown then [(true, f)] else []), on2)
+      end
+  end.
+Fixpoint vis_sw_list (c : cfg) (inF on : bool) (l : list call) : list (bool * N) * bool :=
+  match l with
+  | [] => ([], on)
+  | k :: r => let '(o1, b1) := vis_sw c inF on k in
+              let '(o2, b2) := vis_sw_list c inF b1 r in (o1 ++ o2, b2)
+  end.
+Definition select_sw (c : cfg) (f : list call) : list (bool * N) :=
+  fst (vis_sw_list c false true (flat_map (tprune c (threshold c)) f)).
+
+(* the class: no depth= / -H anywhere, -D not reached *)
+Definition sw_class (c : cfg) (fns : list N) (hmax : Z) : bool :=
+  forallb (fun k => match q_depth (trig_of c k) with None => true | Some _ => false end
+                    && negb (q_hide (trig_of c k))) fns
+  && (hmax <=? gdepth c).
